@@ -163,6 +163,10 @@ pub struct Findings {
     pub findings: Vec<Finding>,
 }
 
+pub fn verif_root_pub() -> std::path::PathBuf {
+    verif_root()
+}
+
 pub fn load_findings() -> Findings {
     let p = verif_root().join("known_findings.json");
     match std::fs::read_to_string(&p) {
@@ -326,14 +330,27 @@ pub fn run_check(def: &PropDef, tier: Tier, seed: u64, max_items: Option<u64>) -
     let agg = Mutex::new(Agg::default());
     let watch: Vec<Mutex<Option<(Instant, Scenario)>>> = (0..workers).map(|_| Mutex::new(None)).collect();
     let done_workers = AtomicU64::new(0);
-    std::thread::scope(|s| {
+    let harness_panic = AtomicBool::new(false);
+    let scope_result = std::panic::catch_unwind(std::panic::AssertUnwindSafe(|| std::thread::scope(|s| {
         for w in 0..workers {
-            let (next, stop, agg, capped, watch, done_workers) = (&next, &stop, &agg, &capped, &watch, &done_workers);
+            let (next, stop, agg, capped, watch, done_workers, harness_panic) = (&next, &stop, &agg, &capped, &watch, &done_workers, &harness_panic);
             std::thread::Builder::new()
                 .stack_size(256 << 20)
                 .spawn_scoped(s, move || {
+                    // a panic of the harness itself (generator, oracle) must end the check as a
+                    // harness error, never hang it or pass for a verdict
+                    struct Done<'a>(&'a AtomicU64, &'a AtomicBool);
+                    impl Drop for Done<'_> {
+                        fn drop(&mut self) {
+                            if std::thread::panicking() {
+                                self.1.store(true, Ordering::Relaxed);
+                            }
+                            self.0.fetch_add(1, Ordering::Relaxed);
+                        }
+                    }
+                    let _done = Done(done_workers, harness_panic);
                     loop {
-                        if stop.load(Ordering::Relaxed) {
+                        if stop.load(Ordering::Relaxed) || harness_panic.load(Ordering::Relaxed) {
                             break;
                         }
                         if t0.elapsed().as_secs() >= cap {
@@ -356,7 +373,6 @@ pub fn run_check(def: &PropDef, tier: Tier, seed: u64, max_items: Option<u64>) -
                             stop.store(true, Ordering::Relaxed);
                         }
                     }
-                    done_workers.fetch_add(1, Ordering::Relaxed);
                 })
                 .expect("spawn worker");
         }
@@ -391,8 +407,18 @@ pub fn run_check(def: &PropDef, tier: Tier, seed: u64, max_items: Option<u64>) -
                 }
             }
         });
-    });
-    let mut agg = agg.into_inner().unwrap();
+    })));
+    if scope_result.is_err() || harness_panic.load(Ordering::Relaxed) {
+        println!("HARNESS-ERROR: a worker of the harness panicked (generator or oracle defect, see the panic message above); no verdict");
+        return 2;
+    }
+    let mut agg = match agg.into_inner() {
+        Ok(a) => a,
+        Err(_) => {
+            println!("HARNESS-ERROR: a worker of the harness panicked while aggregating; no verdict");
+            return 2;
+        }
+    };
 
     // 3. violations: match against known findings, minimise the rest, verify replay in a fresh process
     let mut new_groups: Vec<(Scenario, Violation)> = vec![];
